@@ -479,7 +479,21 @@ func (w *c18world) variants(doc *jmut.Node, rngPick func(n int) int, full bool) 
 		case key == "cat" && n.K == jmut.Str:
 			rep("category", append(append([]string{}, w.catsAll...), "ZZZ", "vat"))
 		case key == "rate" && n.K == jmut.Str:
-			rep("rate", append(append([]string{}, w.ratesAll...), "nope", "nope+standard", "standard+nope", "STANDARD"))
+			// … and the bare parts of published composite keys (eqs of standard+eqs):
+			// a part is a key of its own only where it is published as one
+			var parts []string
+			seenPart := map[string]bool{}
+			for _, rk := range w.ratesAll {
+				if strings.Contains(rk, "+") {
+					for _, pt := range strings.Split(rk, "+") {
+						if !seenPart[pt] {
+							seenPart[pt] = true
+							parts = append(parts, pt)
+						}
+					}
+				}
+			}
+			rep("rate", append(append(append([]string{}, w.ratesAll...), parts...), "nope", "nope+standard", "standard+nope", "STANDARD"))
 		case key == "ext" && n.K == jmut.Obj:
 			for mi, m := range n.M {
 				// other keys with the same value, same key with other values
